@@ -9,6 +9,11 @@ let get_fclass = function
 let register (reg : string -> (Sx.t list -> Sx.t) -> unit) =
   reg "go" (fun a -> match a with [c] -> put_str (go_string (get_fclass c)) | _ -> bad "go");
   reg "go_orig" (fun a -> match a with [c] -> put_str (go_string_orig (get_fclass c)) | _ -> bad "go_orig");
+  reg "mple" (fun a -> match a with
+    | [acc; sets] ->
+        put_list (put_pair put_str (put_list (put_pair put_str put_n)))
+          (mp_le_samples (get_bool acc) (get_list (get_pair get_str (get_list (get_pair get_fclass get_n))) sets))
+    | _ -> bad "mple");
   reg "denote" (fun a -> match a with
     | [s] -> put_opt (put_pair put_bool (put_pair put_n put_z)) (denote_signed (get_str s))
     | _ -> bad "denote")
